@@ -1,0 +1,17 @@
+//go:build verif
+// +build verif
+
+package routetab
+
+import (
+	"github.com/gauss-project/aurorafs/pkg/boson"
+	"github.com/gauss-project/aurorafs/pkg/storage"
+)
+
+// VerifNewTable exposes the unexported route table constructor.
+func VerifNewTable(self boson.Address, store storage.StateStorer) *Table {
+	return newRouteTable(self, store)
+}
+
+// VerifTable returns the route table of a service.
+func (s *Service) VerifTable() *Table { return s.routeTable }
